@@ -64,7 +64,12 @@ void rt_op_end (void);
 /* same, declaring the absolute deadline (ns on the library's clock) the API call was given: a thread found asleep
    WITHOUT a timer inside such a call is a C05 matter */
 void rt_op_deadline (int64_t deadline_ns);
+/* declare that the current operation has a finite deadline AND no cancel note: inside such a call the only legitimate
+   untimed sleeps are lock acquisitions (nsync_mu_lock_slow_); Mode B reports any other untimed sleep that lasts beyond
+   the deadline as oracle "asleep-past-deadline" at once, even if some later wake-up would have rescued it */
+void rt_op_deadline_strict (int64_t deadline_ns);
 #define RT_OP_DL(name_, dl_ns_, stmt_) do { rt_op_begin (name_); rt_op_deadline (dl_ns_); stmt_; rt_op_end (); } while (0)
+#define RT_OP_DLS(name_, dl_ns_, strict_, stmt_) do { rt_op_begin (name_); if (strict_) rt_op_deadline_strict (dl_ns_); else rt_op_deadline (dl_ns_); stmt_; rt_op_end (); } while (0)
 /* sleeps (futex waits that really blocked or binary-semaphore waits) and atomic steps of
    the calling thread since its last rt_op_begin() */
 unsigned rt_op_sleeps (void);
